@@ -1195,7 +1195,13 @@ def sphere_like_constructors(check, prog):
     # (and the other primitive shape the property names: an ellipsoid's semi-axes
     # are radii too -- contains() squares them, so a negative one is only seen in
     # the inverted bounding box and in voxelate)
-    for C in sorted(prog.subclasses(SPH)) + [SC + 'ellipsoid.Ellipsoid']:
+    # ... and, as siblings of one interface, every other centred shape with a size:
+    # a model's log-prior is -inf for an invalid scatterer only if the constructor
+    # refuses it (C12), whatever the shape
+    CEN = SC + 'scatterer.CenteredScatterer'
+    named = sorted(prog.subclasses(SPH)) + [SC + 'ellipsoid.Ellipsoid']
+    for C in named + [q_ for q_ in sorted(prog.subclasses(CEN, strict=True))
+                      if q_ not in named]:
         c = prog.classes[C]
         if '__init__' not in c.methods:
             continue
@@ -1233,4 +1239,4 @@ def sphere_like_constructors(check, prog):
                       'length 3 that is not three numbers -- a (3, 1) column, a 3 x 3 '
                       'array -- is accepted (or center=(0, 0) / center=3, if nothing is '
                       'asked at all)' % short)
-    check.floor('sphere-like constructors checked', n, 3)
+    check.floor('sphere-like constructors checked', n, 8)
